@@ -294,6 +294,43 @@ def register(hub, props=("C13", "C15"), pool=None):
             rec.violation(M15I, f"{short}:result-holds-the-very-dimension-set-of-its-source", {"op": op}, prop="C15")
             return
         probe = fd.Dimension(name="vmon probe", letter=PROBE_LETTER, items=["p"])
+        def _replace_and_drop():
+            # the other in-place edits: a dimension of the result replaced / dropped (and put back); the source goes on answering every
+            # lookup as before
+            letters0 = list(src_snap.letters)
+            if not letters0 or list(new_arr.dims.letters) != letters0:
+                return
+            first = new_arr.dims[letters0[0]]
+            for edit in ("replace", "drop"):
+                try:
+                    if edit == "replace":
+                        new_arr.dims.replace(letters0[0], probe, inplace=True)
+                    else:
+                        new_arr.dims.drop(letters0[0], inplace=True)
+                except Exception:
+                    return
+                try:
+                    problem = None
+                    try:
+                        if not DSnap(src_dims).same(src_snap):
+                            problem = "dimension list changed"
+                        elif [src_dims[l_].letter for l_ in letters0] != letters0 or [src_dims[d_[1]].letter for d_ in src_snap.dims] != letters0 or tuple(src_dims.shape) != tuple(len(d_[2]) for d_ in src_snap.dims) or any(l_ not in src_dims for l_ in letters0):
+                            problem = "lookups answer differently"
+                    except Exception as e_:
+                        problem = f"lookup raises {type(e_).__name__}"
+                    if problem:
+                        rec.violation(M15I, f"{short}:editing-result-dims-changes-source-dims", {"op": op, "edit": edit, "problem": problem}, prop="C15")
+                        return
+                finally:
+                    try:
+                        if edit == "replace":
+                            new_arr.dims.replace(PROBE_LETTER, first, inplace=True)
+                        else:
+                            new_arr.dims.insert(0, first, inplace=True)
+                    except Exception:
+                        pass
+
+        _replace_and_drop()  # first: an append would give the result a fresh lookup table of its own
         try:
             new_arr.dims.append(probe, inplace=True)
         except Exception:
